@@ -40,7 +40,7 @@ impl ConfigDatabase {
     }
 
     pub fn set(&mut self, key: String, value: String) -> Result<(), Box<dyn Error>> {
-#[cfg(brc20_prog_verif)]
+        #[cfg(brc20_prog_verif)]
         crate::verif::failpoint("config/put");
         self.db.put(&key.encode_vec(), &value.encode_vec())?;
         self.cache.insert(key, value);
@@ -48,7 +48,7 @@ impl ConfigDatabase {
     }
 
     pub fn flush(&self) -> Result<(), Box<dyn Error>> {
-#[cfg(brc20_prog_verif)]
+        #[cfg(brc20_prog_verif)]
         crate::verif::failpoint("config/flush");
         self.db.flush().map_err(|e| e.into())
     }
